@@ -207,9 +207,12 @@ def _cluster(op: Dict[str, Any], sim: Sim, world) -> None:
             out.append(d)
         return out
 
-    bc = BatchCluster()
-    one, _ = bc.fit(mk(), [], rule_key="gml", attribute_key=akey, batch_size=None)
-    bat, _ = BatchCluster().fit(mk(), [], rule_key="gml", attribute_key=akey, batch_size=op["batch_size"])
+    # long-lived service objects: one BatchCluster per run for the one-shot path, one for the batched path
+    if not hasattr(world, "_bc_pair"):
+        world._bc_pair = (BatchCluster(), BatchCluster())
+    bc1, bc2 = world._bc_pair
+    one, _ = bc1.fit(mk(), [], rule_key="gml", attribute_key=akey, batch_size=None)
+    bat, _ = bc2.fit(mk(), [], rule_key="gml", attribute_key=akey, batch_size=op["batch_size"])
     if op["batch_size"] < len(specs):
         sim.probe("cluster_batched")
     for name, res in (("one_shot", one), ("batched", bat)):
@@ -286,7 +289,10 @@ def _balance(op: Dict[str, Any], sim: Sim, world, pristine) -> None:
         arg: List[Any] = [{"reactions": r, "tag": i} for i, r in enumerate(rs)]
     else:
         arg = list(rs)
-    bal, unbal = BalanceReactionCheck(n_jobs=op["n_jobs"]).dicts_balance_check(arg, "reactions")
+    if not hasattr(world, "_bal"):
+        world._bal = {}
+    checker = world._bal.setdefault(op["n_jobs"], BalanceReactionCheck(n_jobs=op["n_jobs"]))
+    bal, unbal = checker.dicts_balance_check(arg, "reactions")
     if op["n_jobs"] > 1:
         sim.probe("balance_parallel")
     with pristine:
